@@ -67,6 +67,8 @@ def gen_sequence(rng, k):
             events.append(["corrupt", rng.choice(names_of(key, L, vec))])
         if rng.random() < 0.25:
             events.append(["put", next(zs), [["put", 7]]])
+        if r and rng.random() < 0.3:
+            events.append(["newdst"])
         events.append(["run", arg, rng.random() < 0.85, vec])
     return {"vec": vec, "src": src, "plans": plans, "init": init, "events": events, "note": f"random{k}"}
 
@@ -95,6 +97,10 @@ def directed_sequences():
     S.append({"vec": True, "src": [("a", 2), ("b", 1)], "plans": {"a.1": ["G4", "G4"]}, "init": {"b": [["pre", 5]]},
               "events": [["run", "A", True, True], ["corrupt", "a.0"], ["run", "A", True, True], ["run", "A", True, True]],
               "note": "vectorised failed-with-file + corrupt cache"})
+    # new destination, same cache directory: cached successes of the SAME input are reused, those of another input are not
+    S.append({"vec": False, "src": [("a", 1), ("b", 1), ("c", 1)], "plans": {"c": ["F2"]}, "init": {},
+              "events": [["run", "A", True, False], ["newdst"], ["run", "A", True, False], ["newdst"], ["run", "B", True, False],
+                         ["newdst"], ["run", "A", False, False]], "note": "new destination, same cache"})
     S.append({"vec": False, "src": [("a", 1), ("b", 1), ("c", 1)], "plans": {}, "init": {"a": [["pre", 1]]},
               "events": [["corrupt", "a"], ["corrupt", "b"], ["run", "A", True, False], ["corrupt", "c"], ["put", "z9", [["put", 7]]],
                          ["run", "A", True, False], ["run", "B", True, False]], "note": "corrupt cache files, everything already done"})
@@ -182,6 +188,7 @@ def worker_main(jobs_fn, res_fn):
                         for inp in (list(pr) if vec else [pr]):
                             h2a[bytes(inp.hash)] = a
             cache = os.path.join(d, "cache")
+            ndst = 0
 
             def observe(raised):
                 with dst.reading():
@@ -213,6 +220,9 @@ def worker_main(jobs_fn, res_fn):
                 elif ev[0] == "put":
                     with dst.writing():
                         dst[ev[1]] = mkobj(ev[1], len(ev[2]), ev[2])
+                elif ev[0] == "newdst":
+                    ndst += 1
+                    dst = Lib(os.path.join(d, f"dst{ndst}" + ext), readonly=False)
                 res["obs"].append(observe(raised))
             res["residue"] = sorted(os.listdir(os.path.join(d, "scr")))
         except Exception:
@@ -270,6 +280,8 @@ def cq_event(ev):
         return f"JRun (mk_jp {cq_s(ev[1])} {'true' if ev[2] else 'false'} {'true' if ev[3] else 'false'})"
     if ev[0] == "corrupt":
         return f"JCorrupt {cq_s(ev[1])}"
+    if ev[0] == "newdst":
+        return "JNewDst"
     return f"JPut {cq_s(ev[1])} {cq_value(ev[2])}"
 
 
